@@ -315,6 +315,9 @@ class CodeGenerator(NodeVisitor):
         self.created_block_context = False
         self.defer_init = defer_init
         self.optimizer: Optimizer | None = None
+        # Whether the code being written is directly inside a Python
+        # loop, for break and continue.
+        self._loop_stack: list[bool] = [False]
 
         if optimized:
             self.optimizer = Optimizer(environment)
@@ -691,7 +694,9 @@ class CodeGenerator(NodeVisitor):
             self.outdent()
         self.pop_parameter_definitions()
 
+        self._loop_stack.append(False)
         self.blockvisit(node.body, frame)
+        self._loop_stack.pop()
         self.return_buffer_contents(frame, force_unescaped=True)
         self.leave_frame(frame, with_python_scope=True)
         self.outdent()
@@ -1331,7 +1336,9 @@ class CodeGenerator(NodeVisitor):
         # An iteration that is left with break or continue took place too.
         if node.else_:
             self.writeline(f"{iteration_indicator} = 0")
+        self._loop_stack.append(True)
         self.blockvisit(node.body, loop_frame)
+        self._loop_stack.pop()
         self.outdent()
         if loop_filter_gen is not None:
             self.outdent()
@@ -2041,9 +2048,13 @@ class CodeGenerator(NodeVisitor):
         self.write(self.derive_context(frame))
 
     def visit_Continue(self, node: nodes.Continue, frame: Frame) -> None:
+        if not self._loop_stack[-1]:
+            self.fail("'continue' outside loop", node.lineno)
         self.writeline("continue", node)
 
     def visit_Break(self, node: nodes.Break, frame: Frame) -> None:
+        if not self._loop_stack[-1]:
+            self.fail("'break' outside loop", node.lineno)
         self.writeline("break", node)
 
     def visit_Scope(self, node: nodes.Scope, frame: Frame) -> None:
